@@ -243,3 +243,84 @@ def stale_reads(func, loop):
                     out.append((x.id, node))
             done.update(writes)
     return out
+
+
+def path_affine_env(canon, path, frame, upto=None):
+    """name -> Affine for the locals of `frame` following one path (Assign / AugAssign of
+    Name targets, evaluated where they occur)."""
+    from ..norm import affine, Affine
+    env = {}
+    evs = path.events if upto is None else path.events[:upto]
+    for e in evs:
+        if e.kind != 'stmt' or e.frame is not frame:
+            continue
+        n = e.node
+        if isinstance(n, ast.Assign) and len(n.targets) == 1 and isinstance(n.targets[0], ast.Name):
+            env[n.targets[0].id] = affine(canon, n.value, frame, env)
+        elif isinstance(n, ast.AugAssign) and isinstance(n.target, ast.Name) and isinstance(n.op, (ast.Add, ast.Sub)):
+            cur = env.get(n.target.id)
+            if cur is None:
+                cur = Affine({n.target.id: 1})
+            d = affine(canon, n.value, frame, env)
+            env[n.target.id] = cur + (d if isinstance(n.op, ast.Add) else d.scale(-1))
+    return env
+
+
+def counting_parts(func, name):
+    """If local `name` is a counter -- every plain assignment sets it to 0 and it is changed
+    only by one `+= 1` inside a for-loop -- return (loop node, [(cond ast, polarity)]) with the
+    conditions between the loop head and the increment; else None."""
+    inits = [n for n in walk_no_nested(func.node) if isinstance(n, ast.Assign) and any(
+        isinstance(t, ast.Name) and t.id == name for t in n.targets)]
+    incs = [n for n in walk_no_nested(func.node) if isinstance(n, ast.AugAssign) and isinstance(
+        n.target, ast.Name) and n.target.id == name]
+    if not inits or len(incs) != 1:
+        return None
+    if not all(isinstance(n.value, ast.Constant) and n.value.value == 0 for n in inits):
+        return None
+    inc = incs[0]
+    if not (isinstance(inc.op, ast.Add) and isinstance(inc.value, ast.Constant) and inc.value.value == 1):
+        return None
+    found = {}
+
+    def rec(n, stack):
+        for c in ast.iter_child_nodes(n):
+            if isinstance(c, (ast.FunctionDef, ast.AsyncFunctionDef, ast.ClassDef, ast.Lambda)) and c is not func.node:
+                continue
+            ns = stack
+            if isinstance(n, (ast.For, ast.AsyncFor)) and c in n.body:
+                ns = stack + [('for', n)]
+            elif isinstance(n, ast.If) and c in n.body:
+                ns = stack + [('if', n.test, True)]
+            elif isinstance(n, ast.If) and c in n.orelse:
+                ns = stack + [('if', n.test, False)]
+            elif isinstance(n, ast.While) and c in n.body:
+                ns = stack + [('while', n)]
+            if c is inc:
+                found['ns'] = ns
+                return True
+            if rec(c, ns):
+                return True
+        return False
+    rec(func.node, [])
+    ns = found.get('ns')
+    if not ns:
+        return None
+    fors = [i for i, x in enumerate(ns) if x[0] == 'for']
+    if not fors or any(x[0] == 'while' for x in ns[fors[-1] + 1:]):
+        return None
+    return ns[fors[-1]][1], [(x[1], x[2]) for x in ns[fors[-1] + 1:] if x[0] == 'if']
+
+
+def resolve_name_chain(func, node):
+    """follow `x = y` single-assignment copies from a Name to the name that is really defined"""
+    seen = set()
+    while isinstance(node, ast.Name) and node.id not in seen:
+        seen.add(node.id)
+        defs = assigned_names(func).get(node.id, [])
+        if len(defs) == 1 and isinstance(defs[0], ast.Assign) and len(defs[0].targets) == 1 and isinstance(
+                defs[0].targets[0], ast.Name) and isinstance(defs[0].value, ast.Name):
+            node = defs[0].value
+        else:
+            break
+    return node
